@@ -47,7 +47,33 @@ fn main() {
     common::install_panic_hook();
     let threads = std::env::var("VERIF_THREADS").ok().and_then(|s| s.parse().ok()).unwrap_or(16);
     rayon::ThreadPoolBuilder::new().num_threads(threads).stack_size(16 << 20).build_global().ok();
-    let code = match args[1].as_str() {
+    let id: &'static str = Box::leak(args[1].clone().into_boxed_str());
+    let code = match common::catch(|| dispatch(id, tier)) {
+        Ok(c) => c,
+        Err(msg) => {
+            // A panic escaped a check. If it was raised inside the code under test (fixture
+            // construction included) that is a verdict: the code panicked on an input of the
+            // check's domain. A panic raised by the harness itself is a machinery failure.
+            let last = common::last_panic().unwrap_or_default();
+            if last.contains("@ /repo/") {
+                let report = common::Report::new(id, tier, "other");
+                report.violation(
+                    format!("{id}:uncaught-panic-in-code-under-test:{}", engine::panic_class(&msg)),
+                    format!("the code under test panicked outside any oracle (e.g. while the check built its inputs): {last}"),
+                    serde_json::json!({"panic": last}),
+                );
+                report.finish(serde_json::json!({"evaluations": 1, "distinct_nontrivial": 1, "rule": "the check aborted on a panic of the code under test before completing", "samples": [last], "aborted": true}))
+            } else {
+                println!("MACHINERY-FAILURE: harness panicked: {last}");
+                2
+            }
+        }
+    };
+    std::process::exit(code);
+}
+
+fn dispatch(id: &str, tier: Tier) -> i32 {
+    match id {
         "C01" => c01::run(tier),
         "C02" => c02::run(tier),
         "C03" => c03_c04_c06::run_c03(tier),
@@ -72,6 +98,5 @@ fn main() {
             eprintln!("unknown property {other}");
             2
         }
-    };
-    std::process::exit(code);
+    }
 }
